@@ -230,6 +230,8 @@ def run_case(case):
         classes.add("left the specified domain")
     if case.get("init"):
         classes.add("clock far from zero")
+    if case["timeout"] == inf:
+        classes.add("timer created with an infinite timeout")
     if not isinstance(case["args"], (list, tuple)) and case["args"] not in ("omit", None):
         classes.add("scalar args")
         if not case["args"]:
@@ -245,9 +247,11 @@ def strategy(tier):
     dense = _strategy(tier, [1, 2, 0.5, 1, 0.3], [0, 1, 2, 0.5, 1, 0.5, 0.3])
     wide = _strategy(tier, TAUS, [0, 1, 2, 3, 0.5, 0.25, 1.5, 0.1, 0.2, 0.3, 0.7])
     # clocks that start far from zero (seconds since some epoch, long-running simulations); dyadic values keep every sum exact
+    # a timer may be parked: an infinite timeout never expires, and a later restart(tau) arms it like any pending timer
+    parked = _strategy(tier, [float("inf"), 1, 2, float("inf"), 0.5], [0, 1, 2, 0.5, 1])
     far = st.tuples(_strategy(tier, [1, 2, 0.5, 0.25, 1.5, 3], [0, 1, 2, 0.5, 0.25, 1.5]),
                     st.sampled_from([2 ** 31, 1700000000.0, 2 ** 40, 10 ** 9])).map(lambda t: dict(t[0], init=t[1]))
-    return kgen.weighted([(dense, 3), (wide, 1), (far, 1)])
+    return kgen.weighted([(dense, 3), (wide, 1), (far, 1), (parked, 1)])
 
 
 def _strategy(tier, taus, delays):
